@@ -234,7 +234,9 @@ def run(pid, tier, replay=None):
     nrand = 12 if quick else 150
     traces_by = {}
     for i in range(nrand):
-        kind = rng.choice(["deep_fork", "multi_batch", "three_nodes", "small"])
+        kind = ["line_deep", "deep_fork", "multi_batch", "three_nodes", "small", "line_deep"][i % 6] if i < 6 else \
+            rng.choice(["deep_fork", "multi_batch", "three_nodes", "small", "line_deep"])
+        prefix = []
         if kind == "deep_fork":          # fork deeper than the locator's dense range (10), side branch also stored at the server
             L = rng.randint(13, 18)
             parent = {0: 0}
@@ -263,12 +265,37 @@ def run(pid, tier, replay=None):
             init = {1: allb[0], 2: allb[1], 3: allb[2]}
             peers = rng.choice([{1: {2}, 2: {1, 3}, 3: {2}}, {1: {2, 3}, 2: {1, 3}, 3: {1, 2}}])
             batch = rng.choice([2, 3])
+        elif kind == "line_deep":
+            # line 1--2--3, three branches forking at a height that is beyond the dense range of every locator; the middle node's first
+            # two periodic steps go to the same neighbour (its fetch slots get inventories that overlap blocks it already stores), and
+            # the greatest height sits at the other end of the line
+            f = rng.randint(2, 4)
+            lens = [rng.randint(21, 24), rng.randint(13, 15), rng.randint(16, 18)]      # node 1 highest, node 2 lowest
+            parent = {0: 0}
+            for b in range(1, f + 1):
+                parent[b] = b - 1
+            nxt = f + 1
+            init = {}
+            for node, L in zip((1, 2, 3), lens):
+                prev = f
+                mine = set(range(0, f + 1))
+                for h in range(f + 1, L + 1):
+                    parent[nxt] = prev
+                    mine.add(nxt)
+                    prev = nxt
+                    nxt += 1
+                init[node] = mine
+            peers = {1: {2}, 2: {1, 3}, 3: {2}}
+            batch = rng.choice([4, 500])
+            prefix = [{"a": "step", "n": 2, "m": 3}, {"a": "step", "n": 2, "m": 3}]
         else:
             parent, init, peers = UNIVERSES[rng.choice(sorted(UNIVERSES))]
             batch = 2
         tid += 1
         run_ = Run(cfg, keys, parent, init, peers, batch, tid)
         try:
+            for act in prefix:
+                run_.do(act)
             for _ in range(rng.randint(5, 60)):
                 links = [k for k, q in run_.net.queues.items() if q]
                 x = rng.random()
